@@ -114,7 +114,7 @@ impl Transaction {
         }
 
         // If min_value is specified and value is greater than max value
-        if criteria.max_value.is_some() && criteria.max_value < txin.satoshis {
+        if criteria.max_value.is_some() && (txin.satoshis.is_none() || criteria.max_value < txin.satoshis) {
             return false;
         }
 
